@@ -59,6 +59,10 @@ def _list_items(cp):
     eam_dens_items = _list_eam_dens(cp)
     items.extend(eam_dens_items)
 
+  # [Table-Form:NAME] sections
+  table_form_sections = [s for s in cp.raw_config_parser.sections() if s.startswith("Table-Form:")]
+  items.extend(_parse_raw(cp, table_form_sections))
+
   orphan_sections = cp.orphan_sections
   raw_items = _parse_raw(cp, orphan_sections)
   items.extend(raw_items)
